@@ -286,8 +286,8 @@ def ocaml_build(name, extra_ml=()):
     return True, log, out
 
 
-def run_lines(binary, lines, timeout=1800, env=None, args=()):
-    """Feed one case per line, get one result per line."""
+def run_lines(binary, lines, timeout=1800, env=None, args=(), prefix=None):
+    """Feed one case per line, get one result per line (only lines starting with `prefix` when given)."""
     inp = "\n".join(lines) + "\n"
     try:
         p = subprocess.run([binary] + list(args), input=inp, stdout=subprocess.PIPE, stderr=subprocess.PIPE,
@@ -297,6 +297,8 @@ def run_lines(binary, lines, timeout=1800, env=None, args=()):
     out = p.stdout.split("\n")
     if out and out[-1] == "":
         out.pop()
+    if prefix is not None:
+        out = [l[len(prefix):] for l in out if l.startswith(prefix)]
     if p.returncode != 0 or len(out) != len(lines):
         return out, "rc=%d lines=%d/%d stderr=%s" % (p.returncode, len(out), len(lines), p.stderr[-2000:])
     return out, None
@@ -397,18 +399,29 @@ def proof_coverage(proof):
 # ----------------------------------------------------------------------------- generic differential stage
 
 def differential(ctx, name, proof, cases, line_of, oracle, norm_impl=None, norm_model=None, nontrivial=None,
-                 shrink_candidates=None, more_cases=None, correspondence_name="", model_applies=None, model_line_of=None):
+                 shrink_candidates=None, more_cases=None, correspondence_name="", model_applies=None, model_line_of=None,
+                 impl_spec=None, model_name=None):
     """Stages C, D, E and the verdict logic shared by the package-level checks.
     cases: list of case objects; line_of(case) -> protocol line; oracle(case, impl_out) -> None | (key, msg).
     Returns a dict with counts for the evidence."""
-    okm, logm, model = ocaml_build(name)
-    okg, logg, impl = go_build(name)
+    okm, logm, model = ocaml_build(model_name or name)
+    impl_args, impl_prefix = (), None
+    if impl_spec:
+        # impl_spec = (harness name, is test binary, extra args, output line prefix)
+        okg, logg, impl = go_build(impl_spec[0], test=impl_spec[1])
+        impl_args, impl_prefix = impl_spec[2], impl_spec[3]
+    else:
+        okg, logg, impl = go_build(name)
     ctx.say("builds: model=%s harness=%s" % (okm, okg))
+    _run_lines = run_lines
+
+    def run_impl(ls):
+        return _run_lines(impl, ls, args=impl_args, prefix=impl_prefix)
     lines = [line_of(c) for c in cases]
     corr_broken = None
     impl_out = model_out = None
     if okg:
-        impl_out, err = run_lines(impl, lines)
+        impl_out, err = run_impl(lines)
         if err:
             corr_broken, impl_out = "harness run failed: " + err, None
     else:
@@ -421,7 +434,7 @@ def differential(ctx, name, proof, cases, line_of, oracle, norm_impl=None, norm_
         corr_broken = (corr_broken or "") + " model does not build:\n" + logm[-1500:]
 
     def run1(c):
-        o, err = run_lines(impl, [line_of(c)])
+        o, err = run_impl([line_of(c)])
         return None if err else o[0]
 
     def shrink(c, key):
@@ -473,7 +486,7 @@ def differential(ctx, name, proof, cases, line_of, oracle, norm_impl=None, norm_
     if (mism or corr_broken or not proof["ok"]) and not new_violation:
         if okg and more_cases:
             extra = more_cases()
-            eo, err = run_lines(impl, [line_of(c) for c in extra])
+            eo, err = run_impl([line_of(c) for c in extra])
             if not err:
                 for c, o in zip(extra, eo):
                     r = oracle(c, o)
